@@ -73,6 +73,14 @@ Definition from_integer_ok (fuel : nat) (num len : Z) : option bool :=
 (* to_string<Capacity>: the buffer has Capacity + 1 characters (size_t arithmetic); 64 iterations suffice for 64 bits *)
 Definition to_string_guard (cap val : Z) : option bool := from_integer_ok 64 val (u64 (cap + 1)).
 
+(** _string/basic_inplace_string.hpp  erase(first, last) and the iterator-based replace(first, last, ...) overloads
+    (assert_range_in_string, fix commit): first = begin() + a, last = first + d, a and d ptrdiff_t values;
+      start = static_cast<size_type>(first - cbegin()); distance = static_cast<size_type>(last - first);
+      TETL_PRECONDITION(start <= size()); TETL_PRECONDITION(distance <= size() - start);                       *)
+Definition str_iter_range_guard (size a d : Z) : bool := (u64 a <=? size) && (u64 d <=? u64 (size - u64 a)).
+Definition str_iter_range_site (size a d : Z) : nat :=
+  if u64 a <=? size then (if u64 d <=? u64 (size - u64 a) then O else 2%nat) else 1%nat.
+
 (** _format/argument.hpp:68  format_escaped_sequences(str): TETL_PRECONDITION(false) when an opening "{{" (the first
     '{' of the rest, followed by another '{') has no closing "}}" (the first '}' after it, followed by another '}').
     find_from c l = the suffix of l starting at the first c (etl::find), [] if there is none. *)
